@@ -52,9 +52,11 @@ func filterMain(args mon.Args) {
 		{"file [7] + flag 2", "[7]", []string{"-sflow-type-filter", "2"}, []uint32{7, 2}},
 		{"file [2] + flag 1", "[2]", []string{"-sflow-type-filter", "1"}, []uint32{2, 1}},
 		{"flag 4095,2", "", []string{"-sflow-type-filter", "4095,2"}, []uint32{4095, 2}},
+		{"flag 1,1,2 (an entry twice, then a new one)", "", []string{"-sflow-type-filter", "1,1,2"}, []uint32{1, 1, 2}},
+		{"file [2] + flag 2,1 (the flag repeats the file's entry first)", "[2]", []string{"-sflow-type-filter", "2,1"}, []uint32{2, 2, 1}},
 	}
 	if !run.Thorough() {
-		keep := map[string]bool{"no filter": true, "flag 2,1": true, "flag given twice": true, "file [2]": true, "file [3, 4, 1]": true, "file [2] + flag 1": true, "flag 4095,2": true}
+		keep := map[string]bool{"no filter": true, "flag 2,1": true, "flag given twice": true, "file [2]": true, "file [3, 4, 1]": true, "file [2] + flag 1": true, "flag 4095,2": true, "flag 1,1,2 (an entry twice, then a new one)": true, "file [2] + flag 2,1 (the flag repeats the file's entry first)": true}
 		var q []fcfg
 		for _, c := range cfgs {
 			if keep[c.name] {
